@@ -57,6 +57,9 @@ def handle (ts : List String) : String :=
   | "ivs" :: rest =>
     orErr <| (run (do let q ← str; let n ← nat; pure (q, n)) rest).bind fun (q, n) =>
       (intervalSemitones q n).map fmtInt
+  | "ivq" :: rest =>
+    orErr <| (run (do let q ← str; let n ← nat; let k ← int; pure (q, n, k)) rest).bind fun (q, n, k) =>
+      (changeQuality n q k).bind fun q' => (intervalSemitones q' n).map fun s => fmtTuple [q', fmtInt s]
   | "ivv" :: rest =>
     orErr <| (run (do let q ← str; let n ← nat; let d ← str; pure (q, n, d)) rest).map fun (q, n, d) =>
       fmtBool (intervalValid q n d)
